@@ -362,6 +362,13 @@ def _split_items(text):
     return items
 
 
+def vf_split_items(block_sl):
+    """Top-level items (simple statements, `header { body }` compounds, preprocessor lines) of a braced block slice."""
+    t = block_sl.text.strip()
+    inner = t[1:match_close(t, 0)] if t.startswith("{") else t
+    return _split_items(inner)
+
+
 def items_between(block_sl, after_re, before_re, name=None, allow_loop_break=False):
     """The statements of a braced block that lie strictly between the unique item whose text matches after_re and the unique later
     item whose text matches before_re (items as split by _split_items: simple statements and `header { body }` compounds).  Anchoring
@@ -372,7 +379,8 @@ def items_between(block_sl, after_re, before_re, name=None, allow_loop_break=Fal
     def txt(it):
         return it[1] + ("{" + it[2] + "}" if it[0] == 'compound' else "")
     ia = [k for k, it in enumerate(items) if re.search(after_re, strip_comments(txt(it)).strip())]
-    ib = [k for k, it in enumerate(items) if re.search(before_re, strip_comments(txt(it)).strip())]
+    # before_re=None: up to the end of the block
+    ib = [len(items)] if before_re is None else [k for k, it in enumerate(items) if re.search(before_re, strip_comments(txt(it)).strip())]
     if len(ia) != 1 or len(ib) != 1 or ib[0] <= ia[0]:
         raise Undecided("items_between(%s): expected one item matching %r followed by one matching %r, found %d/%d" % (block_sl.name, after_re, before_re, len(ia), len(ib)))
     frag = "".join(("\n" + txt(it) + "\n") if it[0] == 'pp' else txt(it) for it in items[ia[0] + 1:ib[0]])
